@@ -662,15 +662,23 @@ func (c10) Run(t *tape.Tape, cfg sim.Config) (res sim.Result) {
 	rt := wazero.NewRuntimeWithConfig(ctx, rc)
 	defer rt.Close(ctx)
 	bins := [][]byte{binA, binB, binC}
+	lctx := experimental.WithFunctionListenerFactory(ctx, experimental.FunctionListenerFactoryFunc(func(api.FunctionDefinition) experimental.FunctionListener {
+		return nopListener{}
+	}))
+	withHandles := cfg.Class == "compiled-handles"
 	shared := make([]wazero.CompiledModule, 2)
 	for i := 0; i < 2; i++ {
-		cm, err := rt.CompileModule(ctx, bins[i])
+		cctx := ctx
+		if withHandles {
+			// the same listener selection as the clients' compilations: one engine entry behind all handles
+			cctx = lctx
+		}
+		cm, err := rt.CompileModule(cctx, bins[i])
 		if err != nil {
 			panic(err)
 		}
 		shared[i] = cm
 	}
-	withHandles := cfg.Class == "compiled-handles"
 	// failing start functions: the instance is registered, its start function reaches the host function
 	// below (which stamps the history: the registration lies before the stamp, the close after it) and fails
 	type transient struct {
@@ -701,9 +709,6 @@ func (c10) Run(t *tape.Tape, cfg sim.Config) (res sim.Result) {
 			panic(err)
 		}
 	}
-	lctx := experimental.WithFunctionListenerFactory(ctx, experimental.FunctionListenerFactoryFunc(func(api.FunctionDefinition) experimental.FunctionListener {
-		return nopListener{}
-	}))
 	names := []string{"", "a", "b"}
 	nclients := t.Range(2, 4)
 	plans := make([][]planOp, nclients)
